@@ -23,3 +23,60 @@ CHECK = GraphCheck(
 )
 
 CHECK.with_gtests = True
+
+
+# ---------------------------------------------------------------- edit histories
+# The hierarchy must also be self-consistent on a graph that is being edited
+# through the public primitives - including after an edit the library refused
+# half-way (unknown predecessor): whatever it rerouted before the refusal must
+# have been rerouted at every level.  The C14 history generator is reused with
+# the hierarchy walker run after every edit.
+import random as _random
+
+from .. import attach as _attach
+from ..attach import run_oracle as _run_oracle
+from .base import ShardAcc as _ShardAcc
+from . import c14 as _c14
+
+_plan0 = CHECK.plan
+_run0 = CHECK.run_shard
+
+
+def _plan(tier, seed):
+    shards = _plan0(tier, seed)
+    total = 3000 if tier == "quick" else 100000
+    per = 250 if tier == "quick" else 2500
+    for start in range(0, total, per):
+        shards.append({"kind": "edit_histories", "seed": seed, "start": start, "count": per,
+                       "tier": tier})
+    return shards
+
+
+def _post_edit(ctx, scfg):
+    from ..oracles.hierarchy import check_hierarchy
+
+    if _c14._open_after_refusal(scfg) is not None:
+        return
+    ctx.hit("C04.hierarchy_after_edit")
+    _run_oracle(ctx, "C04.hierarchy", check_hierarchy, scfg)
+
+
+def _run_shard(spec):
+    if spec["kind"] == "edit_histories" or (
+            spec["kind"] == "single" and spec["case"].get("kind") == "history"):
+        _attach.install(("stage", "table"))
+        acc = _ShardAcc("C04")
+        if spec["kind"] == "single":
+            _c14.run_history(spec["case"], acc, _post_edit, False, "C04")
+            return acc.result()
+        for i in range(spec["start"], spec["start"] + spec["count"]):
+            rng = _random.Random(f"c04h/{spec['seed']}/{i}")
+            case = _c14.gen_history(rng)
+            case["refusals"] = rng.random() < 0.6
+            _c14.run_history(case, acc, _post_edit, False, "C04")
+        return acc.result()
+    return _run0(spec)
+
+
+CHECK.plan = _plan
+CHECK.run_shard = _run_shard
